@@ -14,6 +14,7 @@ was appended to the log file is compared with what the rule promises (model kept
           differs from its last logged value
   streak / deck: every queued element once, FIFO, queue empty afterwards.
 
+restart/...: START, steps, STOP, steps without RUN, START, steps, STOP with the same Logger.
 A record must carry the store stamp of the run and the current values of the logged fields.
 Every new file starts with exactly one header; appending to an existing file adds none.
 """
@@ -37,7 +38,8 @@ ASSUMPTIONS = [
     "file system = in-memory double engine/doubles_fs.py installed as ioflo.base.logging.os / ioflo.aid.filing.os+open (real ocfn runs on it); no I/O errors",
     "exact integer time: store.stamp is assigned directly (never decreases); values are small ints",
     "Store built without __init__'s bookkeeping shares; store.house is a stub with a name; Logger built with concrete args (reuse=True, keep=0, flushPeriod=1000)",
-    "one session START .. RUN* .. STOP per history (no restart); one Log per Logger; text kind",
+    "one session START .. RUN* .. STOP per history, or (restart/...) two sessions of the same Logger with writes in between; one Log per Logger; text kind",
+    "at the START of a restarted logger a record is demanded only where both readings of a restart (first run of a new session / next run of the same history) demand it; an extra record there is accepted",
     "a 'logger run' is one call of Logger.log by the runner (START, each RUN, the final log of STOP)",
     "update rule: a write to a field that is not logged, or a write through Share.change (no stamp), neither demands nor forbids a record",
     "fields are never deleted from a share; a logged field that does not exist yet is logged as an empty column",
@@ -48,6 +50,7 @@ RULENAME = {NEVER: "never", ONCE: "once", ALWAYS: "always", UPDATE: "update", CH
             STREAK: "streak", DECK: "deck"}
 ABSENT = "<absent>"
 KNOWN_SAME_TICK = "C22/update/update-after-record-in-same-tick-not-logged"
+RESTART_CHANGE = "C22/change/change-while-stopped-not-logged-at-restart"
 
 
 class _House(object):
@@ -123,19 +126,19 @@ def _newlines(sym, fs, path, seen, header, strip_header):
 SELS = ["all", "one", "late", "two"]
 
 
-def h_rule(sym, rule, sel, K, dmax, vmax, nops, pre=False, op0=None):
+def h_rule(sym, rule, sel, K, dmax, vmax, nops, pre=False, op0=None, stop_at=None, start_at=None):
     fs = MemFS()
     fs.realize = sym.realize
     undo = install(fs)
     ctx = {}
     try:
-        return _rule(sym, fs, ctx, rule, sel, K, dmax, vmax, nops, pre, op0)
+        return _rule(sym, fs, ctx, rule, sel, K, dmax, vmax, nops, pre, op0, stop_at, start_at)
     finally:
         _shutdown(ctx)
         undo()
 
 
-def _rule(sym, fs, ctx, rule, sel, K, dmax, vmax, nops, pre, op0):
+def _rule(sym, fs, ctx, rule, sel, K, dmax, vmax, nops, pre, op0, stop_at, start_at):
     rn = RULENAME[rule]
     store, logger, log = _world(rule)
     ctx["logger"] = logger
@@ -175,7 +178,7 @@ def _rule(sym, fs, ctx, rule, sel, K, dmax, vmax, nops, pre, op0):
     seen = len(old)
 
     # model
-    st = dict(first=True, last=None, last_stamp=None, must=[], may=False, nrec=0, deferred=None)
+    st = dict(first=True, last=None, last_stamp=None, must=[], may=False, nrec=0, deferred=None, deferred_key=None)
 
     def expect_line(stamp):
         parts = ["%s" % (stamp,)]
@@ -184,7 +187,7 @@ def _rule(sym, fs, ctx, rule, sel, K, dmax, vmax, nops, pre, op0):
             parts.append("" if v is ABSENT else "%s" % (v,))
         return "\t".join(parts)
 
-    def run(control, tag):
+    def run(control, tag, restart=False):
         nonlocal seen
         status = logger.runner.send(control)
         seen, lines, bad = _newlines(sym, fs, path, seen, sym.realize(log.header), st["first"] and not pre)
@@ -213,6 +216,12 @@ def _rule(sym, fs, ctx, rule, sel, K, dmax, vmax, nops, pre, op0):
                     elif st["last"][c] != cur[c]:
                         need = True
             allow = need
+        if restart and rule != NEVER:
+            # START of a stopped logger: "first run of a new session" and "next run of the same history"
+            # are both defensible readings; a record is demanded only where both demand it
+            allow = True
+            if rule == ONCE:
+                need = False
         sym.check(len(lines) <= 1, "C22/%s/more-than-one-record-in-one-run" % rn, "%r" % lines)
         got = len(lines) == 1
         if got:
@@ -233,8 +242,16 @@ def _rule(sym, fs, ctx, rule, sel, K, dmax, vmax, nops, pre, op0):
                 if same_tick:
                     # known class: keep going so that any other failure on this path is reported first
                     if st["deferred"] is None:
+                        st["deferred_key"] = KNOWN_SAME_TICK
                         st["deferred"] = "record at stamp %s, then update at stamp %s, %s at stamp %s wrote nothing" % (
                             st["last_stamp"], st["must"][0], tag, now)
+                elif restart and rule == CHANGE:
+                    # second class found on the unchanged tree: Log.prepare re-snapshots .lasts at every START
+                    if st["deferred"] is None:
+                        st["deferred_key"] = RESTART_CHANGE
+                        st["deferred"] = "last logged %r, values at restart %r, START at stamp %s wrote nothing" % (
+                            [sym.realize(st["last"][c]) for c in cols], [sym.realize(cur[c]) for c in cols], sym.realize(now))
+                    st["last"] = {c: cur[c] for c in cols}     # follow the code from here on
                 else:
                     sym.fail("C22/%s/promised-record-missing" % rn, "%s at stamp %s" % (tag, now))
             else:
@@ -244,8 +261,17 @@ def _rule(sym, fs, ctx, rule, sel, K, dmax, vmax, nops, pre, op0):
 
     run(START, "START")
     prev = -1
+    stopped = False
     for k in range(K):
+        if stop_at is not None and k == stop_at:
+            run(STOP, "STOP")
+            stopped = True
+        if start_at is not None and k == start_at:
+            run(START, "reSTART", restart=True)
+            sym.cover("restarted")
+            stopped = False
         op = op0 if (k == 0 and op0 is not None) else sym.choice("op%d" % k, nops)
+        sym.assume(not (stopped and op == 3))        # a stopped logger is not run
         # two advances in a row == one advance; the same write twice in a row == the second write
         sym.assume(not (op == prev and op != 3))
         prev = op
@@ -279,7 +305,7 @@ def _rule(sym, fs, ctx, rule, sel, K, dmax, vmax, nops, pre, op0):
     if rule == ONCE:
         sym.check(st["nrec"] == 1, "C22/once/not-exactly-one-record")
     if st["deferred"] is not None:
-        sym.fail(KNOWN_SAME_TICK, st["deferred"])
+        sym.fail(st["deferred_key"], st["deferred"])
     return True
 
 
@@ -368,7 +394,7 @@ def _queue(sym, fs, ctx, rule, kind, rounds, nmax, dmax):
         if r == 0 and sym.flag("early"):
             push()                              # queued before the logger is started
         if r > 0:
-            store.stamp = store.stamp + sym.int("d%d" % r, 0, dmax)
+            store.stamp = store.stamp + 1
             n = sym.int("n%d" % r, 0, nmax)
             for i in range(n):
                 push()
@@ -394,29 +420,38 @@ def obligations(tier):
     quick = tier == "quick"
     out = []
     K = 5 if quick else 6
+    covers_of = {NEVER: ["no-record"], ONCE: ["record", "no-record"], ALWAYS: ["record"],
+                 UPDATE: ["record", "no-record"], CHANGE: ["record", "no-record"]}
+
+    def family(prefix, rule, sel, K, nops, dmax, vmax, shard):
+        b = dict(steps=K, ops=OPNAMES[:nops], field_selection=sel, session="START, steps, STOP",
+                 stamp_increment=("0..%d (symbolic)" % dmax) if rule == UPDATE else "1 (concrete)",
+                 values=("0..%d (symbolic)" % vmax) if rule == CHANGE else "distinct (concrete)")
+        for op0 in (list(range(nops)) if shard else [None]):
+            name = "%s/%s/%s" % (prefix, RULENAME[rule], sel) + ("" if op0 is None else "/op0=%d" % op0)
+            out.append(Ob(name, h_rule, dict(rule=rule, sel=sel, K=K, dmax=dmax, vmax=vmax, nops=nops, op0=op0),
+                          budget=600 if quick else 3000, covers=covers_of[rule] if op0 in (None, 3) else [],
+                          bounds=dict(b, first_op=None if op0 is None else OPNAMES[op0])))
+
     for rule in (ONCE, ALWAYS, NEVER, UPDATE, CHANGE):
         hard = rule in (UPDATE, CHANGE)
-        dmax = (1 if quick else 2) if rule == UPDATE else None
-        vmax = (1 if quick else 2) if rule == CHANGE else None
-        nops = 5 if (hard and not quick) else 4
         sels = SELS if (hard or not quick) else ["all", "late"]
-        covers = {NEVER: ["no-record"], ONCE: ["record", "no-record"], ALWAYS: ["record"],
-                  UPDATE: ["record", "no-record"], CHANGE: ["record", "no-record"]}[rule]
         for sel in sels:
-            b = dict(steps=K, ops=OPNAMES[:nops], field_selection=sel, session="START, steps, STOP",
-                     stamp_increment=("0..%d (symbolic)" % dmax) if dmax is not None else "1 (concrete)",
-                     values=("0..%d (symbolic)" % vmax) if vmax is not None else "distinct (concrete)")
-            firsts = list(range(nops)) if hard else [None]
-            for op0 in firsts:
-                name = "rule/%s/%s" % (RULENAME[rule], sel) + ("" if op0 is None else "/op0=%d" % op0)
-                out.append(Ob(name, h_rule,
-                              dict(rule=rule, sel=sel, K=K, dmax=dmax or 1, vmax=vmax or 1, nops=nops, op0=op0),
-                              budget=400 if quick else 1500, covers=covers if op0 in (None, 3) else [],
-                              bounds=dict(b, first_op=None if op0 is None else OPNAMES[op0])))
+            family("rule", rule, sel, K, 4, 1 if quick else 2, 1 if quick else 2, hard)
+            if hard and not quick:       # histories that also write through Share.change (no stamp)
+                family("unstamped", rule, sel, 5, 5, 1, 1, True)
+    for rule in (ONCE, ALWAYS, NEVER, UPDATE, CHANGE):
+        for sel in (["all"] if quick else ["all", "late", "two"]):
+            Kr, sa, sb = (4, 1, 3) if quick else (5, 2, 4)
+            out.append(Ob("restart/%s/%s" % (RULENAME[rule], sel), h_rule,
+                          dict(rule=rule, sel=sel, K=Kr, dmax=1, vmax=1, nops=4, stop_at=sa, start_at=sb),
+                          budget=600 if quick else 3000, covers=["restarted"] if rule not in (UPDATE, CHANGE) else [],
+                          bounds=dict(steps=Kr, session="START, %d step(s), STOP, %d step(s) without RUN, START, %d step(s), STOP"
+                                      % (sa, sb - sa, Kr - sb), field_selection=sel)))
     for rule in (ONCE, ALWAYS, NEVER, UPDATE, CHANGE):
         out.append(Ob("existing-file/%s" % RULENAME[rule], h_rule,
                       dict(rule=rule, sel="all", K=2, dmax=1, vmax=1, nops=4, pre=True),
-                      budget=200, covers=[], bounds=dict(steps=2, note="log file exists before START (reuse): no header may be added")))
+                      budget=300, covers=[], bounds=dict(steps=2, note="log file exists before START (reuse): no header may be added")))
     rounds = 2 if quick else 3
     nmax = 2 if quick else 3
     skinds = [("list", "default"), ("deque", "first"), ("odict", "two")]
@@ -425,7 +460,7 @@ def obligations(tier):
     for kind in skinds:
         out.append(Ob("queue/streak/%s-%s" % kind, h_queue,
                       dict(rule=STREAK, kind=kind, rounds=rounds, nmax=nmax, dmax=1),
-                      budget=300 if quick else 1200, covers=["elements-logged", "several-elements-in-one-run"],
+                      budget=600 if quick else 3000, covers=["elements-logged", "several-elements-in-one-run"],
                       bounds=dict(rounds=rounds, pushes_per_round="0..%d (symbolic)" % nmax, container=kind[0], fields=kind[1])))
     dkinds = [("dict", "x"), ("odict", "xy"), ("short", "xy")]
     if not quick:
@@ -433,6 +468,6 @@ def obligations(tier):
     for kind in dkinds:
         out.append(Ob("queue/deck/%s-%s" % kind, h_queue,
                       dict(rule=DECK, kind=kind, rounds=rounds, nmax=nmax, dmax=1),
-                      budget=300 if quick else 1200, covers=["elements-logged", "several-elements-in-one-run"],
+                      budget=600 if quick else 3000, covers=["elements-logged", "several-elements-in-one-run"],
                       bounds=dict(rounds=rounds, pushes_per_round="0..%d (symbolic)" % nmax, entries=kind[0], fields=kind[1])))
     return out
